@@ -533,13 +533,27 @@ func shieldScenario(c *Chain, rng interface{ Intn(int) int }, kind int, sc Shiel
 	if shield < sc.MinPurchase {
 		return true
 	}
+	// in one history out of three the buyer makes two purchases of the pool in the same block: two entries of one purchase list
+	// with the same protection end time (they share one slot of the expiring-purchase queue); the claim is filed against the
+	// larger one, whose deletion time then moves while the other's stays (own random stream)
+	double := newRng(c.Cfg.Seed*31+11).Intn(3) == 0 && shield >= 3*sc.MinPurchase
+	if double {
+		shield -= sc.MinPurchase
+	}
 	c.Do(buyer, []D{{"t": "shield.purchase", "from": Hex(c.Accts[buyer].Addr), "pool": poolID, "amt": shield}},
 		shieldtypes.NewMsgPurchaseShield(poolID, coin(shield), "asset", c.Accts[buyer].Addr))
+	if double {
+		c.Do(buyer, []D{{"t": "shield.purchase", "from": Hex(c.Accts[buyer].Addr), "pool": poolID, "amt": sc.MinPurchase}},
+			shieldtypes.NewMsgPurchaseShield(poolID, coin(sc.MinPurchase), "asset", c.Accts[buyer].Addr))
+	}
 	lists := sk.GetAllPurchaseLists(c.Ctx())
 	var purchaseID uint64
 	for _, l := range lists {
 		if l.PoolId == poolID && l.Purchaser == c.Accts[buyer].Addr.String() && len(l.Entries) > 0 {
 			purchaseID = l.Entries[len(l.Entries)-1].PurchaseId
+			if double && len(l.Entries) >= 2 {
+				purchaseID = l.Entries[len(l.Entries)-2].PurchaseId
+			}
 		}
 	}
 	if purchaseID == 0 {
